@@ -447,6 +447,37 @@ def run_case(job, acc: Acc):
                 if gotd != decl:
                     report("after_rename_resolution", ent, decl, gotd, f"after rename to {new_name}: {x.file}:{x.line}:{col}")
                     break
+    # An edit in the session: with ranged synchronisation, two blanks are typed in front of a line that holds an occurrence
+    # (after a first search has looked at every line); the same search must then report that line's occurrences two
+    # columns further right.
+    if shape != "binding_same_name":
+        s3 = Server(["--incremental_sync"])
+        s3.initialize(root)
+        for ent in ents:
+            occs = [x for x in ws.occurrences() if x.ent == ent and not x.decl]
+            if not occs:
+                continue
+            o = occs[-1]
+            path = os.path.join(root, o.file)
+            s3.open(path)
+            pos = Server.tdpp(path, o.line, (o.col + o.end) // 2)
+            s3.result("textDocument/references", {**pos, "context": {"includeDeclaration": True}})
+            p0 = {"line": o.line, "character": 0}
+            s3.change(path, [{"range": {"start": p0, "end": p0}, "text": "  "}])
+            want = sorted((f_, l_, c_ + (2 if (f_, l_) == (o.file, o.line) else 0), e_ + (2 if (f_, l_) == (o.file, o.line) else 0))
+                          for (f_, l_, c_, e_) in ranges_of(ws, ent))
+            may = set()
+            for e2 in MAY_INCLUDE.get(ent, ()):
+                if e2 in ents:
+                    may |= {(f_, l_, c_ + (2 if (f_, l_) == (o.file, o.line) else 0), e_ + (2 if (f_, l_) == (o.file, o.line) else 0)) for (f_, l_, c_, e_) in ranges_of(ws, e2)}
+            pos2 = Server.tdpp(path, o.line, (o.col + o.end) // 2 + 2)
+            refs = norm_locs(s3.result("textDocument/references", {**pos2, "context": {"includeDeclaration": True}}))
+            acc.count("requests")
+            refs_cmp = [r for r in refs if tuple(r) not in may] if isinstance(refs, list) else refs
+            if refs_cmp != want:
+                report("references_after_single_line_edit", ent, want, refs_cmp, f"references from {o.file}:{o.line}:{o.col + 2} after typing two blanks at the start of that line")
+            # undo, so that the next entity starts from the text on disk
+            s3.change(path, [{"range": {"start": p0, "end": {"line": o.line, "character": 2}}, "text": ""}])
     if len(acc.samples) < 2:
         acc.sample({"shape": shape, "name": n, "patterns": list(pats), "main": ws.files["main.f90"].text})
 
